@@ -54,7 +54,13 @@ def run_det(case):
     d1 = outcome(lambda: r.to_dict())
     res = {"d1": d1, "q1": q_of_det(det)}
     if "ok" in d1:
-        res["d2"] = outcome(lambda: SigmaDetections.from_dict(copy.deepcopy(d1["ok"])).to_dict())
+        try:
+            r2 = SigmaDetections.from_dict(copy.deepcopy(d1["ok"]))
+            res["d2"] = outcome(lambda: r2.to_dict())
+        except SigmaError as e:
+            res["d2"] = {"err": type(e).__name__, "msg": str(e)[:120], "stage": "reload"}
+        except Exception as e:  # noqa
+            res["d2"] = {"crash": type(e).__name__, "msg": str(e)[:120], "stage": "reload"}
         res["q2"] = q_of_det(d1["ok"])
     return res
 
@@ -92,7 +98,10 @@ def enc_item(i):
 def enc_det(d):
     types = {type(x) for x in d.detection_items}
     if len(types) > 1: return {"mixed": 1}
-    if types == {SigmaDetection}: return {"subs": [enc_det(x) for x in d.detection_items]}
+    if types == {SigmaDetection}:
+        if d.item_linking is not ConditionOR and len(d.detection_items) > 1:
+            return {"mixed": 1}     # AND-linked nested detections: not expressible either
+        return {"subs": [enc_det(x) for x in d.detection_items]}
     return {"items": [enc_item(x) for x in d.detection_items], "or": d.item_linking is ConditionOR}
 
 
